@@ -127,11 +127,11 @@ def run (ctx):
            "the replay loop is reached before ConnectionUp has been raised: listeners get PortStatus for a connection they have not been told about", (mod, s_), 'D3')
     body = g.loop_body_nodes(h)
     early = [n for n in g.nodes if n.kind in ('break',) and any(m is a for m, l in n.succ)] + [n for n in body if n.kind in ('continue', 'return')]
-    hcall = [n for n in body if any(isinstance(c.func, ast.Name) and len(c.args) == 2 and norm(c.args[1]) == s_.target.id for c in q.node_calls(n))]
+    hcall = [n for n in body if any(isinstance(c.func, (ast.Name, ast.Subscript)) and len(c.args) == 2 and norm(c.args[1]) == s_.target.id for c in q.node_calls(n))]
     ctx.ob('R-ALL', fin, "every early message is replayed, in arrival order", not early and bool(hcall), "plain for-loop over the list" if not early and hcall else "replay loop skips messages", (mod, s_), 'D3')
     if hcall:
-      c = [c for c in q.node_calls(hcall[0]) if isinstance(c.func, ast.Name)][0]
-      d = q.single_def(fin.node, c.func.id)
+      c = [c for c in q.node_calls(hcall[0]) if isinstance(c.func, (ast.Name, ast.Subscript)) and len(c.args) == 2][0]
+      d = q.single_def(fin.node, c.func.id) if isinstance(c.func, ast.Name) else c.func
       good = d is not None and norm(d) == c_ + '.handlers[of.OFPT_PORT_STATUS]'
       swap_first = bool(swap) and g.dominates(swap[0], hcall[0])
       ctx.ob('R-AGREE', fin, "replay goes through the connected-state port-status handler", good and swap_first, norm(d) if d is not None else "?", (mod, s_), 'D3')
